@@ -15,7 +15,8 @@ CHECKS = {
              "pattern, bumps only that pattern's counter, and is independent of other methods' clauses and counters; the model is "
              "tied to /repo on every run by co-executing generated clause lists and histories on the real crate and in Coq "
              "(vm_compute) and comparing which clause answered / whether the call panicked / what verification names. "
-             "Also tied through the user-facing path: the same clause lists written as REAL tuple expressions (flat tuples of every arity 2..16 with overlapping patterns at adjacent positions; random nests) against the model on the list in written order.",
+             "Also tied through the user-facing path: the same clause lists written as REAL tuple expressions (flat tuples of every arity 2..16 with overlapping patterns at adjacent positions; random nests) against the model on the list in written order. "
+             "Concurrent part: overlapping exactly-quantified patterns called by 2-3 threads under every interleaving. Matcher-trace part: the matcher functions a call consults (the patterns up to the answering one, none after it: C01_later_patterns_are_not_consulted) logged on the real runtime and compared with Model/Run.v matcher_trace.",
         design_ref="DESIGN.md section 7, C01",
         technique="Coq proof (refinement to first_match + frame lemmas) + model/implementation co-execution"),
     "C02": dict(
@@ -41,7 +42,8 @@ CHECKS = {
              "is the one the left-to-right slot sequence (Spec/Slots.v) names; the i-th call to any ordered method is accepted iff slot i belongs to the "
              "called method and its matcher accepts, it then reads position i-lo of that pattern's chain, otherwise it fails with out-of-range / wrong-order / "
              "inputs-not-matched; unordered and unmentioned calls leave next_ordered, ordered counters and the invariant untouched. Tied to /repo by co-executing "
-             "ordered clause sequences with every accepted prefix extended by deviating calls.",
+             "ordered clause sequences with every accepted prefix extended by deviating calls. "
+             "Shape part: async flavours (async fn, -> impl Future, #[async_trait]) consult the mock - and take their ordered slot - at the first poll, once per await, never for a future dropped unpolled.",
         design_ref="DESIGN.md section 7, C04",
         technique="Coq proof (range-partition invariant + refinement to the slot sequence) + model/implementation co-execution"),
     "C07": dict(
@@ -50,7 +52,8 @@ CHECKS = {
              "real function is a recorded CannotUnmock panic; none of these rows changes a counter, the ordered index or a single-use slot (also over whole histories "
              "of such calls) and none produces a Return/Answer, i.e. the mock never fabricates a value. Tied to /repo by co-executing the whole decision table "
              "exhaustively (methods x strict/partial x situation x 8 arguments x position), Termination::report as the partial-by-default row. "
-             "The probed call is made on the original and on a clone; a receiver part runs default bodies of every receiver kind whose inner calls have no applicable pattern.",
+             "The probed call is made on the original and on a clone; a receiver part runs default bodies of every receiver kind whose inner calls have no applicable pattern. "
+             "The table includes methods mentioned only by patterns quantified exactly 0; a shape part runs the fall-through to the real implementation for generated trait shapes (typed receiver spellings included).",
         design_ref="DESIGN.md section 7, C07",
         technique="Coq proof (decision-table identity + quiet-state invariant) + exhaustive table co-execution"),
     "C14": dict(
@@ -59,7 +62,8 @@ CHECKS = {
              "assembly is refused iff, left to right, some clause is an empty stub, has an unproducible return, or another mode than its method's first clause "
              "(either order, any distance), with the first such clause's message, at construction; at_least_times on ordered chains and then() after a non-exact "
              "count do not type-check in the builder model. Tied to /repo by compiling and running generated REAL tuple expressions (nested trees, offending clause "
-             "at every leaf position) against the leaves-order model.",
+             "at every leaf position) against the leaves-order model. "
+             "Concurrent part: overlapping ordered calls consume the flattened clause sequence slot by slot (every interleaving of 2-3 threads).",
         design_ref="DESIGN.md section 7, C14",
         technique="Coq proof (structural induction over clause trees; assembler invariant) + regenerated tuple-order table + co-execution of generated tuple programs"),
     "C18": dict(
@@ -95,7 +99,8 @@ CHECKS = {
              "an instance and is left by a mock-induced or user panic reports exactly that one panic; after a caught panic the shared state is what the completed evaluation left. "
              "Tied to /repo by running the whole crash matrix (panic origin x topology x met/unmet x owning-scope / unwinding-drop / caught) on the real crate; a double panic aborts "
              "the harness process and is observed as a crash. The abort-on-double-panic rule itself is Rust runtime behaviour (modelled, not proved). "
-             "Topologies include mocks built by cleanup code during unwinding, no_verify_in_drop originals, and a value chain holding a value whose Drop makes a failing (swallowed) call while the thread unwinds.",
+             "Topologies include mocks built by cleanup code during unwinding, no_verify_in_drop originals, and a value chain holding a value whose Drop makes a failing (swallowed) call while the thread unwinds. "
+             "Message part: producing the message must not panic either - every error kind with 600-700 byte ASCII / non-ASCII argument renderings and pattern texts; an abort is seen as a crashed case.",
         design_ref="DESIGN.md section 7, C11",
         technique="Coq proof (unwinding => silent drop, for all states) + exhaustive crash-matrix co-execution"),
     "C10": dict(
@@ -123,7 +128,8 @@ CHECKS = {
              "steps, every reference shows its own value, no two share a cell, the chain is a permutation of the lent values and only grows. Tied to /repo by re-reading ALL held references "
              "and the live-value count after every step of generated make_ref/make_mut sequences (three value types incl. a zero-sized guard) on original and clones, and by threads lending "
              "through one instance under the controlled scheduler (all interleavings for small programs). Memory safety itself is delegated to forbid(unsafe_code) (checked textually). "
-             "Sessions also lend through the instance's delegation helper, call `&mut self` provided methods (AsMut path) and drop instances while their thread unwinds.",
+             "Sessions also lend through the instance's delegation helper, call `&mut self` provided methods (AsMut path) and drop instances while their thread unwinds. "
+             "Sessions may end in a provided method with a by-value receiver whose required call observes the number of live lent values while the body runs.",
         design_ref="DESIGN.md section 7, C13",
         technique="Coq proof (append-only chain laws; invariants over all schedules) + sequence and scheduler-controlled co-execution with drop counters"),
     "C20": dict(
@@ -163,7 +169,8 @@ CHECKS = {
              "error names the method; a pattern is named `text at file:line`; for guard-free single-alternative patterns the mismatch positions are exactly { i | sub-pattern i rejects }, "
              "independent per position, each with the argument's rendering (wildcards count as positions). Tied to /repo by generated traits and matching! invocations at known lines, compiled "
              "with the real macros for every error kind and compared on parsed components (call path, argument list, pattern text/file:line or index, mismatch positions and values). "
-             "The Impossible parameter class (`&mut T<'a>`) keeps its own entry at its own position (C19_impossible_keeps_its_position); wrong-order errors are generated at every slot of an n_times(k) pattern in line.",
+             "The Impossible parameter class (`&mut T<'a>`) keeps its own entry at its own position (C19_impossible_keeps_its_position); wrong-order errors are generated at every slot of an n_times(k) pattern in line. "
+             "Parameter types include argument-position impl Debug.",
         design_ref="DESIGN.md section 7, C19",
         technique="Coq proof (rendering lemmas by induction over argument lists / sub-patterns) + generated-program co-execution against the real macros"),
     "C06": dict(
@@ -171,7 +178,8 @@ CHECKS = {
              "is proved equal to a Rust match evaluator for ALL inputs (the former F3 class - a bare top-level `||` guard next to an eq!/ne! operand - was repaired by a fix: commit, "
              "C06_f3_repaired), and independent of the reporter (diagnostics on/off); matching!() accepts everything; packing and AsRef coercions are views. Tied to /repo on every run by compiling ~420 generated matching! "
              "invocations with the real macro and evaluating them over their whole argument domain unordered, ordered, and next to a literal Rust match compiled by rustc: model, spec and "
-             "implementation must agree.",
+             "implementation must agree. "
+             "Runtime half: which matchers the runtime consults for a call and when it collects diagnostics (theorems C06_runtime_consults_like_a_match, C06_diagnostics_only_after_the_decision, C06_ordered_call_consults_one_matcher about Model/Run.v matcher_trace), tied by logging every matcher invocation of the real runtime (event callm).",
         design_ref="DESIGN.md section 7, C06",
         technique="Coq proof over an executable macro model (compile = rust_match) + generated-program co-execution with rustc's own match as oracle"),
     "C15": dict(
@@ -180,7 +188,8 @@ CHECKS = {
              "evaluates the same MockFn on the same shared state and only decides what happens to the instance. Tied to /repo by generated clause sets (literal builder chains compiled with the real "
              "macros) and histories mixing direct and delegated calls through &self, &mut self, by-value, Rc/Arc (sole owner and shared) and Pin<&mut Self> receivers on originals and clones. The "
              "sole-owner Rc/Arc defect found by this check (F2) was repaired by a fix: commit. "
-             "Includes provided methods that also have a registered real function (T::m2).",
+             "Includes provided methods that also have a registered real function (T::m2). "
+             "Also the hidden-API form (trait without api=) and a mirrored local trait whose provided methods (unit-returning ones included) are placeholders in the declaration.",
         design_ref="DESIGN.md section 7, C15",
         technique="Coq proof (delegation = fold of direct calls over the shared state) + generated-program co-execution through every receiver kind"),
     "C16": dict(
@@ -189,7 +198,8 @@ CHECKS = {
              "same shared state in program order - recursion to ANY depth n, stopping where a nested level is answered by a pattern. Known finding F1 (C16_known_F1_refuted): no arm is generated "
              "for `&mut self`/Pin receivers. Tied to /repo by generated clause sets over an inventory with the three unmock_with forms at different positions (plain, explicit params, `_`, slots "
              "behind skipped receiver-less functions), u3 recursing to depth 0..7 through partially mocked levels, strict and partial. "
-             "Inventory forms: path, path(b, a), path(self, b, a) (explicit list that starts with the mock and permutes the inputs), `_`, entries behind skipped receiver-less functions.",
+             "Inventory forms: path, path(b, a), path(self, b, a) (explicit list that starts with the mock and permutes the inputs), `_`, entries behind skipped receiver-less functions. "
+             "Also the hidden-API form (trait without api=, unmock_with only).",
         design_ref="DESIGN.md section 7, C16",
         technique="Coq proof (finish table, recursion lemma by induction on depth) + generated-program co-execution; F1 as known finding"),
 }
